@@ -77,6 +77,8 @@ def Val.setInt32 (bv : Val) (v : Int) : Val :=
 
 /-- `bufr_value_set_int64(bv, value)` -/
 def Val.setInt64 (bv : Val) (v : Int) : Val :=
+  -- the parameter is an `int64_t`
+  let v := wrapI64 v
   match bv with
   | .i32 _ => .i32 (wrapI32 v)
   | .i64 _ => .i64 v
